@@ -40,6 +40,8 @@ type Config struct {
 	TimerAnyTime bool    // virtual timers may fire at any scheduling point
 	Deadline    time.Time
 	SelfCheck   bool
+	SkipInit    []string // repo packages whose initialisers are not run (globals stay zero)
+	GoAsCall    []string // function-name prefixes: `go f()` runs f synchronously (program order = hand-off order)
 }
 
 type entryKind uint8
@@ -746,7 +748,7 @@ func (e *Engine) runPath(entry *ssa.Function) {
 					detail = pa.detail
 					return
 				}
-				fmt.Fprintf(os.Stderr, "engine panic on path: %v\ntrace:\n%s\n", r, strings.Join(e.p.trace, "\n"))
+				fmt.Fprintf(os.Stderr, "engine panic on path: %v\ntrace:\n%s\nstack:\n%s\n", r, strings.Join(e.p.trace, "\n"), e.stackString())
 				panic(r)
 			}
 		}()
@@ -792,4 +794,21 @@ func (e *Engine) runPath(entry *ssa.Function) {
 		}
 		e.solver.EndCheck()
 	}
+}
+
+func (e *Engine) stackString() string {
+	var sb strings.Builder
+	if e.p == nil || e.p.cur == nil {
+		return ""
+	}
+	n := 0
+	for fr := e.p.cur.top; fr != nil && n < 12; fr = fr.caller {
+		site := fr.fn.String()
+		if fr.block != nil && fr.pc < len(fr.block.Instrs) {
+			site += " @ " + posOf(e.prog, fr.block.Instrs[fr.pc]) + " :: " + fr.block.Instrs[fr.pc].String()
+		}
+		sb.WriteString("  " + site + "\n")
+		n++
+	}
+	return sb.String()
 }
